@@ -24,7 +24,8 @@ const (
 	markerGrace  = 15 * time.Second // a started child must have written its pid marker within this
 	farDeadline  = 25 * time.Second // Kill deadline of class "far": never reached by a dying process
 	groupGrace   = 6 * time.Second  // members of a SIGKILLed group must be gone within this
-	callGuard    = 60 * time.Second // a call that has not returned after this is "blocked"
+	callGuard    = 60 * time.Second // a Kill / Exec that has not returned after this is "blocked"
+	termGuard    = 10 * time.Second // Terminate never waits for anything: blocked after this
 	settleAtEnd  = 40 * time.Millisecond
 	aliveRecheck = 15 * time.Millisecond
 )
@@ -37,9 +38,9 @@ var signalNames = map[int]string{1: "HUP", 2: "INT", 6: "ABRT", 9: "KILL", 10: "
 //	selfsig   echo pid; kill -s S $$                          (killed by a signal it sends itself)
 //	held      echo pid; read <&3; exit N                      (lives until released / signalled; TERM kills)
 //	trap      trap 'mark; exit 7' TERM; echo pid; read <&3    (TERM → exit 7)
-//	trapsleep trap 'exit 7' TERM; echo pid; sleep 600         (TERM to the group → exit 7; has a child)
+//	trapsleep trap 'exit 7' TERM; sh -c 'echo ppid; exec sleep 600'  (TERM to the group → exit 7; has a child)
 //	ignore    trap ” TERM; echo pid; read <&3                (TERM ignored)
-//	ignsleep  trap ” TERM; echo pid; sleep 600               (TERM ignored by it and its child)
+//	ignsleep  trap ” TERM; sh -c 'echo ppid; exec sleep 600'  (TERM ignored by it and its child)
 //	fork      background child writes its pid and sleeps; main: echo pid; read <&3
 type proc struct {
 	idx     int
@@ -289,10 +290,12 @@ func (c *caseRun) eventCount(name string) int {
 	return k
 }
 
-func guarded(f func() error) (error, bool) {
+func guarded(f func() error) (error, bool) { return guardedFor(callGuard, f) }
+
+func guardedFor(limit time.Duration, f func() error) (error, bool) {
 	ch := make(chan error, 1)
 	go func() { ch <- f() }()
-	t := time.NewTimer(callGuard)
+	t := time.NewTimer(limit)
 	defer t.Stop()
 	select {
 	case e := <-ch:
@@ -347,11 +350,13 @@ func (c *caseRun) script(p *proc) string {
 	case "trap":
 		return fmt.Sprintf("trap 'echo t > %s.trap; exit 7' TERM; %sread x <&3; exit %d", m, pidLine, p.code)
 	case "trapsleep":
-		return fmt.Sprintf("trap 'exit 7' TERM; %ssleep 600; exit %d", pidLine, p.code)
+		// the marker is written by the already forked child: once it is there, a TERM to the group
+		// reaches the child too (dash runs the handler only after its foreground child has ended)
+		return fmt.Sprintf("trap 'exit 7' TERM; sh -c 'echo $PPID > %s.pid; exec sleep 600'; exit %d", m, p.code)
 	case "ignore":
 		return fmt.Sprintf("trap '' TERM; %sread x <&3; exit %d", pidLine, p.code)
 	case "ignsleep":
-		return fmt.Sprintf("trap '' TERM; %ssleep 600; exit %d", pidLine, p.code)
+		return fmt.Sprintf("trap '' TERM; sh -c 'echo $PPID > %s.pid; exec sleep 600'; exit %d", m, p.code)
 	case "fork":
 		return fmt.Sprintf("sh -c 'echo $$ > %s.child; exec sleep 600' & %sread x <&3; exit %d", m, pidLine, p.code)
 	case "forkign": // orphan scenarios only: the background child ignores TERM
@@ -412,6 +417,14 @@ func (c *caseRun) startProc(p *proc, failPath string) string {
 		ret2 := ret
 		if !blocked {
 			ret2 = "starterr"
+			if failPath == "" {
+				msg := err.Error()
+				for _, env := range []string{"temporarily unavailable", "cannot allocate", "too many open files", "no space left"} {
+					if strings.Contains(msg, env) {
+						ret2 = "envfail" // the machine, not the supervisor
+					}
+				}
+			}
 		}
 		if p.relW != nil {
 			p.relW.Close()
